@@ -250,6 +250,32 @@ theorem hit_chain (t : STree) (hs : sizesOk t = true) (col row : Int)
   rw [hit_list_is_under t hs, underRoot, if_pos hin]
   exact under_eq_descend col row t 0 0 hno
 
+/-- **mouse_routing over the chain under the pointer** (`mouse_routing` and `hit_chain` composed).
+In any state whose last frame has `uint16` sizes, for a pointer inside the root surface with no
+overlapping siblings under it: the mouse event is offered capture – target – bubble along the
+ancestor chain (root first) of the deepest surface containing the pointer, and that surface's
+widget is the target. -/
+theorem mouse_routing_chain (o : Oracle) (fuel : Nat) (s : St) (col row : Int)
+    (hs : sizesOk s.lastFrame = true)
+    (hin : inRect 0 0 s.lastFrame.w s.lastFrame.h col row = true)
+    (hno : noOverlapAt 0 0 s.lastFrame col row = true) :
+    ∃ t tg, (descend 0 0 s.lastFrame col row).getLast? = some tg ∧
+      (mouseHandleEvent o fuel s col row).trace =
+        (mouseUpdate o fuel { s with mouse := some (col, row) } s.lastFrame).trace ++ t ∧
+      conforms (.mouse col row) (mouseUpdate o fuel { s with mouse := some (col, row) } s.lastFrame).focused
+        (planOf o.captures ((descend 0 0 s.lastFrame col row).map (·.w)) (.tgt tg.w)) t = true := by
+  obtain ⟨hl, t, ht, hc⟩ := mouse_routing o fuel s col row
+  rw [hit_chain s.lastFrame hs col row hin hno] at hl
+  rw [hl] at hc
+  cases hd : (descend 0 0 s.lastFrame col row).getLast? with
+  | none =>
+    have : descend 0 0 s.lastFrame col row = [] := List.getLast?_eq_none_iff.mp hd
+    cases hf : s.lastFrame with
+    | node i w h ch => rw [hf] at this; simp [descend] at this
+  | some tg =>
+    rw [hd] at hc
+    exact ⟨t, tg, rfl, ht, hc⟩
+
 /-- Non-vacuity, and what overlap does: children 1 (z 0) and 2 (z 1) overlap at (1,1); both are
 hit, 2 (drawn on top) is the target. -/
 example :
